@@ -237,6 +237,23 @@ func runC10(c *Ctx, idx int, o *Obs) {
 		o.Ev("used_object_runs", 2)
 	}
 
+	// ---- the same reference object through several computations in a row: each result is the definition's,
+	// whatever the previous computation left on the object (supports, ids, indexes)
+	if idx%3 == 0 {
+		rs := mustParse(refText)
+		if err := support.FBP(rs, treesChan(boots), 1, nil); o.Check(err == nil, "fbp_error", "first of a series: "+fmt.Sprint(err), inp) {
+			if err := rs.ReinitIndexes(); err == nil {
+				if _, err := support.TBE(rs, treesChan(boots), 1, false, false, false, 0.3, nil, nil); o.Check(err == nil, "tbe_error", "after FBP on the same object: "+fmt.Sprint(err), inp) {
+					judge("TBE (after FBP on the same reference object)", rs, wantT, nil)
+				}
+				if err := support.FBP(rs, treesChan(boots), 1, nil); o.Check(err == nil, "fbp_error", "after FBP and TBE on the same object: "+fmt.Sprint(err), inp) {
+					judge("FBP (after FBP and TBE on the same reference object)", rs, wantF, nil)
+				}
+				o.Ev("series_on_one_reference_object", 1)
+			}
+		}
+	}
+
 	// ---- invariance: order, re-rooting, rotation of every tree -------------------------------
 	{
 		represent := func(s string) string {
